@@ -23,7 +23,11 @@ P12 == {1, 2}
 D1 == {1}
 D12 == {1, 2}
 D125 == {1, 2, 5}
+D3 == {3}
+D2 == {2}
+D23 == {2, 3}
 DReal == {1, 2, 3, 7, 19, 100, 299}
+DNat == Nat
 NoOther == {}
 AllOther == {"udp", "tcpx", "arpreq", "arpcli"}
 SomeOther == {"udp", "tcpx"}
